@@ -390,3 +390,87 @@ func vhC37TimeoutStream() {
 	<-done
 	vAssert("served", len(c.wrote) > 0 && got.Load() >= 4)
 }
+
+// vhC37Pipeline: one PipelineClient with a short MaxIdleConnDuration used by
+// two goroutines, each making a call, pausing longer than the idle duration
+// (the writer's idle check runs meanwhile) and calling again.
+func vhC37Pipeline() {
+	var nmu sync.Mutex
+	dials := 0
+	pc := &PipelineClient{Addr: "a.co:80", MaxConns: 1 + vChoose("maxConns", 2), MaxPendingRequests: 4, MaxBatchDelay: time.Millisecond}
+	pc.MaxIdleConnDuration = 20 * time.Millisecond
+	srvDelay := [...]time.Duration{0, 150 * time.Millisecond}[vChoose("serverDelay", 2)]
+	pc.Dial = func(addr string) (net.Conn, error) {
+		nmu.Lock()
+		c := newVpConn(dials)
+		c.delay = srvDelay // a slow answer keeps a call in flight across several idle checks
+		dials++
+		nmu.Unlock()
+		return c, nil
+	}
+	var wg sync.WaitGroup
+	var okCalls atomic.Int32
+	pause := [...]time.Duration{5, 50}[vChoose("pause", 2)] * time.Millisecond
+	for i := 0; i < 2; i++ {
+		i := i
+		wg.Add(1)
+		go func() {
+			defer wg.Done()
+			if i == 1 {
+				time.Sleep(7 * time.Millisecond)
+			}
+			for r := 0; r < 2; r++ {
+				var req Request
+				var resp Response
+				req.SetRequestURI("http://a.co/p" + string(rune('0'+i)))
+				if err := pc.DoTimeout(&req, &resp, time.Second); err == nil {
+					okCalls.Add(1)
+				}
+				_ = pc.PendingRequests()
+				time.Sleep(pause)
+			}
+		}()
+	}
+	wg.Wait()
+	time.Sleep(100 * time.Millisecond)
+	vAssert("calls-complete", okCalls.Load() >= 2)
+}
+
+// vhC37DialerRefresh: one TCPDialer with a short DNS cache: a first dial fills
+// the cache, the entry expires, and two or three dials of the same host start
+// together while the refresh lookup is slow and succeeds or fails.
+func vhC37DialerRefresh() {
+	c41InProgress, c41MaxInProgress = 0, 0
+	c41Behaviour = map[string]int{}
+	r := &c41Resolver{addrs: []net.IPAddr{{IP: net.IPv4(10, 0, 0, 1)}, {IP: net.IPv4(10, 0, 0, 2)}}}
+	r.takes = 20 * time.Millisecond
+	if vBool("refreshFails") {
+		r.failFrom = 2
+	}
+	d := &TCPDialer{Concurrency: 4, Resolver: r, DNSCacheDuration: 50 * time.Millisecond}
+	if c, err := d.DialTimeout("h.test:80", time.Second); err == nil {
+		c.Close()
+	}
+	time.Sleep(100 * time.Millisecond) // the cache entry has expired
+	K := 2 + vChoose("thirdDial", 2)
+	var wg sync.WaitGroup
+	var okDials atomic.Int32
+	for i := 0; i < K; i++ {
+		i := i
+		wg.Add(1)
+		go func() {
+			defer wg.Done()
+			time.Sleep(time.Duration(i) * 5 * time.Millisecond)
+			if c, err := d.DialTimeout("h.test:80", time.Second); err == nil {
+				okDials.Add(1)
+				c.Close()
+			}
+		}()
+	}
+	wg.Wait()
+	if c, err := d.DialTimeout("h.test:80", time.Second); err == nil {
+		okDials.Add(1)
+		c.Close()
+	}
+	vAssert("dials-return", okDials.Load() >= 0)
+}
